@@ -803,6 +803,36 @@ def _norm_simple(stmts, ctx):
                 changed = True
                 i += 2
                 continue
+            # if C: return False ; return E      ->      return (not C) and E
+            if isinstance(st, ast.If) and not st.orelse and len(st.body) == 1 and isinstance(st.body[0], ast.Return) \
+                    and isinstance(st.body[0].value, ast.Constant) and st.body[0].value.value is False \
+                    and isinstance(nxt, ast.Return) and nxt.value is not None and i + 2 == len(stmts) and not ctx.get("final"):
+                out.append(ast.Return(value=ast.BoolOp(op=ast.And(), values=[_neg_test(st.test), nxt.value]),
+                                      lineno=st.lineno, col_offset=0))
+                changed = True
+                i += 2
+                continue
+            # for (a, b) in it.product(A, B): BODY   ->   for a in A: for b in B: BODY      (A, B lists built in this function)
+            if isinstance(st, ast.For) and not st.orelse and isinstance(st.iter, ast.Call) \
+                    and ast.unparse(st.iter.func) in ("it.product", "product", "itertools.product") and len(st.iter.args) == 2 \
+                    and not st.iter.keywords and isinstance(st.target, (ast.Tuple, ast.List)) and len(st.target.elts) == 2 \
+                    and ctx.get("root") is not None and all(isinstance(a_, ast.Name) for a_ in st.iter.args) \
+                    and not ctx.get("final"):
+                def is_list(nm):
+                    defs = [n.value for n in ast.walk(ctx["root"]) if isinstance(n, ast.Assign)
+                            and any(isinstance(t, ast.Name) and t.id == nm for t in n.targets)]
+                    other = [n for n in ast.walk(ctx["root"]) if isinstance(n, ast.Name) and n.id == nm
+                             and isinstance(n.ctx, (ast.Store, ast.Del))]
+                    return defs and len(other) == len(defs) and all(isinstance(d, (ast.List, ast.ListComp)) or (
+                        isinstance(d, ast.Call) and isinstance(d.func, ast.Name) and d.func.id == "list") for d in defs)
+                if all(is_list(a_.id) for a_ in st.iter.args):
+                    inner = ast.For(target=st.target.elts[1], iter=st.iter.args[1], body=st.body, orelse=[],
+                                    lineno=st.lineno, col_offset=0)
+                    out.append(ast.For(target=st.target.elts[0], iter=st.iter.args[0], body=[inner], orelse=[],
+                                       lineno=st.lineno, col_offset=0))
+                    changed = True
+                    i += 1
+                    continue
             # for _ in X: pass   ->   deque(X, maxlen=0)        (consume, keep nothing)
             if isinstance(st, ast.For) and not st.orelse and all(isinstance(b_, ast.Pass) for b_ in st.body) \
                     and isinstance(st.target, ast.Name) and not ctx.get("final") \
@@ -840,8 +870,10 @@ def _norm_simple(stmts, ctx):
                 changed = True
                 i += 1
                 continue
+            prod_next = isinstance(nxt, ast.For) and isinstance(nxt.iter, ast.Call) and ast.unparse(nxt.iter.func) in (
+                "it.product", "product", "itertools.product")
             if isinstance(st, ast.Assign) and len(st.targets) == 1 and isinstance(st.targets[0], ast.Name) and nxt is not None \
-                    and not ctx.get("final"):
+                    and not ctx.get("final") and not prod_next:
                 v = st.targets[0].id
                 later = stmts[i + 2:]
                 used_later = any(_count_loads(s, v) for s in later)
@@ -1362,11 +1394,23 @@ def _sort_independent(stmts, bound=frozenset()):
 
     def flush():
         if len(run) > 1:
-            tg = [s.targets[0].id for s in run]
-            indep = len(set(tg)) == len(tg) and all(
-                not any(n.id in tg for n in _names(s.value, ast.Load)) for s in run)
-            if indep:
-                run.sort(key=lambda s: _blind(s, bound))
+            # smallest (by name-blind key) topological order of the run: b stays after a when it reads or re-binds a's target
+            items = list(run)
+            keys = [_blind(s_, bound) for s_ in items]
+            deps = {j: set() for j in range(len(items))}
+            for j, b_ in enumerate(items):
+                loads = {n.id for n in _names(b_.value, ast.Load)}
+                for i_, a_ in enumerate(items[:j]):
+                    ta = a_.targets[0].id
+                    if ta in loads or ta == b_.targets[0].id or b_.targets[0].id in {n.id for n in _names(a_.value, ast.Load)}:
+                        deps[j].add(i_)
+            done_, order = set(), []
+            while len(order) < len(items):
+                ready = [j for j in range(len(items)) if j not in done_ and deps[j] <= done_]
+                j = min(ready, key=lambda j_: (keys[j_], j_))
+                done_.add(j)
+                order.append(items[j])
+            run[:] = order
         out.extend(run)
         del run[:]
     for st in stmts:
@@ -1876,7 +1920,7 @@ def canonical_ast(fn, helpers, methods=None, hier=None, segment=False):
             break
     bound = frozenset(_bound(f))
     params = frozenset(_scope_params(f))
-    for _round in range(3):
+    for _round in range(4):
         before = ast.dump(f)
         bound = frozenset(_bound(f))
         f.body = _norm_region(f.body, None if segment else "func", {"bound": bound, "root": f, "defined": params})
@@ -1888,6 +1932,12 @@ def canonical_ast(fn, helpers, methods=None, hier=None, segment=False):
                 break
         f = _Beta().visit(f)
         ast.fix_missing_locations(f)
+        # helpers / closures that only now have a single-expression body
+        inl = Inliner(helpers, methods or {})
+        run_inliner(inl, f, frozenset())
+        if inl.done:
+            f = _Beta().visit(f)
+            ast.fix_missing_locations(f)
         if ast.dump(f) == before:
             break
     bound = frozenset(_bound(f))
